@@ -270,7 +270,7 @@ func newEnv(dir string) (*env, error) {
 	return &env{ctx: ctx, ws: ws, backend: be, cas: caching.NewCas(be)}, nil
 }
 
-var preStates = []string{"absent", "parent-absent", "same", "modified", "truncated", "extra-entries", "file-where-dir", "dir-where-file(lead)", "symlink-at-path(lead)", "exec-bit-flipped"}
+var preStates = []string{"absent", "parent-absent", "same", "modified", "truncated", "extra-entries", "file-where-dir", "dir-where-file(lead)", "symlink-at-path(lead)", "exec-bit-flipped", "modified+exec-bit-flipped"}
 
 type RestoreResult struct {
 	ID         int      `json:"id"`
@@ -333,6 +333,22 @@ func applyPreState(r *rnd, path, kind, pre string) {
 	case "symlink-at-path(lead)":
 		_ = os.RemoveAll(path)
 		_ = os.Symlink("/nonexistent-target", path)
+	case "modified+exec-bit-flipped":
+		if kind == "file" {
+			if fi, err := os.Stat(path); err == nil {
+				b, _ := os.ReadFile(path)
+				_ = os.WriteFile(path, append(b, []byte("JUNK")...), fi.Mode())
+				_ = os.Chmod(path, fi.Mode()^0111)
+			}
+		} else {
+			_ = filepath.Walk(path, func(p string, fi os.FileInfo, err error) error {
+				if err == nil && fi.Mode().IsRegular() && r.chance(1, 2) {
+					_ = os.WriteFile(p, []byte("changed "+r.word(1, 20)), fi.Mode())
+					_ = os.Chmod(p, fi.Mode()^0111)
+				}
+				return nil
+			})
+		}
 	case "exec-bit-flipped":
 		if kind == "file" {
 			if fi, err := os.Stat(path); err == nil {
